@@ -62,6 +62,9 @@ impl Prop for C05 {
         for c in codes {
             operands.push(Operand::Code(c));
         }
+        // currencies without a configured rate: a percentage of an amount needs no rate
+        operands.push(Operand::Code("cad".into()));
+        operands.push(Operand::Code("kwd".into()));
         operands.push(Operand::SymbolBefore("$".into(), "usd".into()));
         operands.push(Operand::SymbolBefore("€".into(), "eur".into()));
         operands.push(Operand::SymbolBefore("₺".into(), "try".into()));
@@ -95,6 +98,35 @@ impl Prop for C05 {
                         _ => (format!("{} off {}", xref, pt), xv * (1.0 - pv / 100.0), "X off p%"),
                     };
                     Some(LineCase::new(format!("{}{}", pre, line), Expect::Value(result_val(want, &o), 1e-9), tag))
+                },
+            ));
+        }
+        {
+            let (xs, ps, operands) = (xs.clone(), ps.clone(), operands.clone());
+            f.push(Family::new(
+                "glued-signs",
+                Mode::Full,
+                "'X + p%' and 'X - p%' in 6 spacings ('X -p%', 'X-p%', 'X- p%' and the same with +) x both percent spellings x operand spellings x the X grid x the non-negative p grid: the value does not depend on the spacing around the operator",
+                move |ch| {
+                    let plus = ch.flag();
+                    let spacing = ch.choose(3);
+                    let prefix = ch.flag();
+                    let o = ch.pick(&operands).clone();
+                    let x = *ch.pick(&xs);
+                    let p = *ch.pick(&ps);
+                    if p.starts_with('-') {
+                        return None;
+                    }
+                    let (xv, pv) = (x.parse::<f64>().unwrap(), p.parse::<f64>().unwrap());
+                    let op = if plus { "+" } else { "-" };
+                    let glue = match spacing {
+                        0 => format!(" {}", op),
+                        1 => op.to_string(),
+                        _ => format!("{} ", op),
+                    };
+                    let line = format!("{}{}{}", operand_text(x, &o), glue, pct_text(p, prefix));
+                    let want = if plus { xv + guarded_div(xv, 100.0) * pv } else { xv - guarded_div(xv, 100.0) * pv };
+                    Some(LineCase::new(line, Expect::Value(result_val(want, &o), 1e-9), if plus { "X +p%" } else { "X -p%" }))
                 },
             ));
         }
